@@ -151,3 +151,46 @@ V("c15-s-comb-kw", "C15", MVC, "dense_alpha, dense_betas = dense_mvcapa_penalty(
 V("c15-s-comb-minorder", "C15", MVC, "        dense_penalties, np.minimum(sparse_penalties, intermediate_penalties)", "        np.minimum(intermediate_penalties, dense_penalties), sparse_penalties", "silent", "minimum re-associated")
 V("c15-s-mw-kw", "C15", MW, "                n, p, self.bandwidth, self.level\n", "                n, p, level=self.level, bandwidth=self.bandwidth\n", "silent", "keyword binding")
 V("c15-s-level", "C15", CBS, "        return np.quantile(scores, 1 - self.level)", "        q = 1.0 - self.level\n        return np.quantile(scores, q)", "silent", "temporary")
+
+# ------------------------------------------------------------------------ C02
+PRUNE_NEW = """        pending_pruned_starts.append(cost_eval_starts[~keep_start])
+        if len(pending_pruned_starts) > min_segment_shift:
+            pruned_starts = pending_pruned_starts.pop(0)
+            cost_eval_starts = cost_eval_starts[
+                ~np.isin(cost_eval_starts, pruned_starts)
+            ]
+"""
+V("c02-f15-revert", "C02", PEL, PRUNE_NEW, "        cost_eval_starts = cost_eval_starts[keep_start]\n", "fire", "F-15 reverted: immediate pruning with min_segment_length > 1", ["PRUNE-DIST"])
+V("c02-delay-short", "C02", PEL, "        if len(pending_pruned_starts) > min_segment_shift:", "        if len(pending_pruned_starts) >= min_segment_shift:", "fire", "FIFO one step too short", ["PRUNE-DIST"])
+V("c02-delay-short2", "C02", PEL, "        if len(pending_pruned_starts) > min_segment_shift:", "        if len(pending_pruned_starts) > min_segment_shift - 1:", "fire", "FIFO one step too short", ["PRUNE-DIST"])
+V("c02-delay-lifo", "C02", PEL, "            pruned_starts = pending_pruned_starts.pop(0)", "            pruned_starts = pending_pruned_starts.pop()", "fire", "LIFO instead of FIFO", ["PRUNE-DIST"])
+V("c02-prune-ge", "C02", PEL, "            candidate_opt_costs + split_cost <= opt_cost[current_obs_ind + 1] + penalty", "            candidate_opt_costs + split_cost >= opt_cost[current_obs_ind + 1] + penalty", "fire", "pruning inequality inverted", ["PRUNE-FORM"])
+V("c02-prune-nopen", "C02", PEL, "            candidate_opt_costs + split_cost <= opt_cost[current_obs_ind + 1] + penalty", "            candidate_opt_costs + split_cost <= opt_cost[current_obs_ind + 1]", "fire", "penalised candidate compared with unpenalised optimum", ["PRUNE-FORM"])
+V("c02-prune-old", "C02", PEL, "            candidate_opt_costs + split_cost <= opt_cost[current_obs_ind + 1] + penalty", "            candidate_opt_costs + split_cost <= opt_cost[current_obs_ind] + penalty", "fire", "compared with the previous optimum", ["PRUNE-FORM"])
+V("c02-prune-keepmask", "C02", PEL, "        pending_pruned_starts.append(cost_eval_starts[~keep_start])", "        pending_pruned_starts.append(cost_eval_starts[keep_start])", "fire", "kept starts queued for removal", ["PRUNE-DIST", "PRUNE-FORM"])
+V("c02-bellman-nopen", "C02", PEL, "        candidate_opt_costs = opt_cost[cost_eval_starts] + agg_costs + penalty", "        candidate_opt_costs = opt_cost[cost_eval_starts] + agg_costs", "fire", "penalty missing from the recursion", ["BELLMAN"])
+V("c02-bellman-max", "C02", PEL, "        argmin_candidate_cost = np.argmin(candidate_opt_costs)", "        argmin_candidate_cost = np.argmax(candidate_opt_costs)", "fire", "argmax instead of argmin", ["BELLMAN"])
+V("c02-bellman-end", "C02", PEL, "        cost_eval_ends = np.repeat(current_obs_ind + 1, len(cost_eval_starts))", "        cost_eval_ends = np.repeat(current_obs_ind, len(cost_eval_starts))", "fire", "evaluated end off by one", ["BELLMAN"])
+V("c02-bellman-start", "C02", PEL, "        latest_start = current_obs_ind - min_segment_shift\n", "        latest_start = current_obs_ind - min_segment_shift + 1\n", "fire", "newest start leaves a too short segment", ["BELLMAN"])
+V("c02-store-idx", "C02", PEL, "        opt_cost[current_obs_ind + 1] = candidate_opt_costs[argmin_candidate_cost]", "        opt_cost[current_obs_ind] = candidate_opt_costs[argmin_candidate_cost]", "fire", "optimum stored one slot early", ["BELLMAN", "DP-COVER"])
+V("c02-gather", "C02", PEL, "        prev_cpts[current_obs_ind] = cost_eval_starts[argmin_candidate_cost]", "        prev_cpts[current_obs_ind] = cost_eval_starts[0] + argmin_candidate_cost", "fire", "back-pointer by offset on a pruned set", ["IDX-GATHER"])
+V("c02-gather2", "C02", PEL, "        prev_cpts[current_obs_ind] = cost_eval_starts[argmin_candidate_cost]", "        prev_cpts[current_obs_ind] = argmin_candidate_cost", "fire", "back-pointer is a position in the candidate array", ["IDX-GATHER"])
+V("c02-init-f0", "C02", PEL, "    opt_cost = np.concatenate((np.array([-penalty]), np.zeros(num_obs)))", "    opt_cost = np.concatenate((np.array([0.0]), np.zeros(num_obs)))", "fire", "F[0] not -penalty", ["DP-COVER"])
+V("c02-init-block", "C02", PEL, "    opt_cost[min_segment_length : 2 * min_segment_length] = agg_costs", "    opt_cost[min_segment_length + 1 : 2 * min_segment_length + 1] = agg_costs", "fire", "first block shifted", ["DP-COVER"])
+V("c02-init-block-ends", "C02", PEL, "    non_changepoint_ends = np.arange(min_segment_length, 2 * min_segment_length)", "    non_changepoint_ends = np.arange(min_segment_length + 1, 2 * min_segment_length + 1)", "fire", "first block evaluated on shifted ends", ["DP-COVER"])
+V("c02-loop-start", "C02", PEL, "    observation_indices = np.arange(2 * min_segment_length - 1, num_obs).reshape(-1, 1)", "    observation_indices = np.arange(2 * min_segment_length, num_obs).reshape(-1, 1)", "fire", "prefix 2m never computed", ["DP-COVER"])
+V("c02-init-starts", "C02", PEL, "    cost_eval_starts = np.array(([0]), dtype=np.int64)", "    cost_eval_starts = np.array(([1]), dtype=np.int64)", "fire", "candidate set does not start at 0", ["BELLMAN"])
+V("c02-bt-step", "C02", PEL, "        i = cpt_i - 1\n", "        i = cpt_i\n", "fire", "backtracking does not step before the segment start", ["BACKTRACK"])
+V("c02-bt-drop", "C02", PEL, "    return np.array(changepoints[-2::-1])", "    return np.array(changepoints[::-1])", "fire", "artificial changepoint 0 reported", ["BACKTRACK"])
+V("c02-bt-start", "C02", PEL, "    i = len(prev_cpts) - 1\n", "    i = len(prev_cpts) - 2\n", "fire", "chain starts at n-2", ["BACKTRACK"])
+V("c02-wiring", "C02", PEL, "        return ChangeDetector._format_sparse_output(changepoints)", "        return ChangeDetector._format_sparse_output(changepoints[:-1])", "fire", "last changepoint dropped before formatting", ["BACKTRACK"])
+V("c02-bind", "C02", PEL, "            self.penalty_,\n            self.min_segment_length,\n        )", "            self.penalty_,\n            1,\n        )", "fire", "driver run with min_segment_length 1", ["BINDING"])
+
+V("c02-s-rename", "C02", PEL, "        candidate_opt_costs = opt_cost[cost_eval_starts] + agg_costs + penalty", "        candidate_opt_costs = penalty + agg_costs + opt_cost[cost_eval_starts]", "silent", "reordered sum")
+V("c02-s-prune-form", "C02", PEL, "            candidate_opt_costs + split_cost <= opt_cost[current_obs_ind + 1] + penalty", "            candidate_opt_costs - penalty + split_cost <= opt_cost[current_obs_ind + 1]", "silent", "penalty moved to the other side")
+V("c02-s-prune-strict", "C02", PEL, "            candidate_opt_costs + split_cost <= opt_cost[current_obs_ind + 1] + penalty", "            candidate_opt_costs + split_cost < opt_cost[current_obs_ind + 1] + penalty", "silent", "strict comparison (Killick's rule discards on >=)")
+V("c02-s-localmin", "C02", PEL, "        opt_cost[current_obs_ind + 1] = candidate_opt_costs[argmin_candidate_cost]\n", "        new_opt = candidate_opt_costs[argmin_candidate_cost]\n        opt_cost[current_obs_ind + 1] = new_opt\n", "silent", "temporary for the new optimum")
+V("c02-s-delay-ge", "C02", PEL, "        if len(pending_pruned_starts) > min_segment_shift:", "        if len(pending_pruned_starts) >= min_segment_shift + 1:", "silent", ">= shift+1")
+V("c02-s-delay-long", "C02", PEL, "        if len(pending_pruned_starts) > min_segment_shift:", "        if len(pending_pruned_starts) > min_segment_shift + 2:", "silent", "longer delay is still exact")
+V("c02-s-shift", "C02", PEL, "        latest_start = current_obs_ind - min_segment_shift\n", "        latest_start = current_obs_ind + 1 - min_segment_length\n", "silent", "same start written differently")
+V("c02-s-bt", "C02", PEL, "    i = len(prev_cpts) - 1\n", "    i = prev_cpts.shape[0] - 1\n", "silent", "shape[0] instead of len")
